@@ -750,7 +750,40 @@ pub mod ffi {
 }
 """
 
-SHAPE_GROUPS = {"attrs": ATTRS, "cyc": CYC, "lts": LTS, "multi": MULTI, "ns": NS, "ren": REN, "special": SPECIAL, "zst": ZST}
+# Result returns whose arms have an FFI-safe spelling different from the Rust one (std slices, strings, Ordering): the wrapper's
+# declared return type and the conversion in its body must agree for every such arm (added after seeded change C09-m15)
+RESARMS = """#[diplomat::bridge]
+pub mod ffi {
+    pub enum RaErr { A, B }
+    #[diplomat::opaque]
+    pub struct RaOp(pub String, pub Vec<u8>, pub Vec<u16>, pub Vec<f64>);
+    impl RaOp {
+        pub fn s8<'a>(&'a self, k: u8) -> Result<&'a str, RaErr> { if k == 0 { Ok(&self.0) } else { Err(RaErr::A) } }
+        pub fn s8u<'a>(&'a self, k: u8) -> Result<&'a DiplomatStr, ()> { if k == 0 { Ok(self.0.as_bytes()) } else { Err(()) } }
+        pub fn s16<'a>(&'a self, k: u8) -> Result<&'a DiplomatStr16, RaErr> { if k == 0 { Ok(&self.2) } else { Err(RaErr::B) } }
+        pub fn b8<'a>(&'a self, k: u8) -> Result<&'a [u8], ()> { if k == 0 { Ok(&self.1) } else { Err(()) } }
+        pub fn f64s<'a>(&'a self, k: u8) -> Result<&'a [f64], RaErr> { if k == 0 { Ok(&self.3) } else { Err(RaErr::B) } }
+        pub fn opt8<'a>(&'a self, k: u8) -> Option<&'a str> { if k == 0 { Some(&self.0) } else { None } }
+        pub fn optb<'a>(&'a self, k: u8) -> Option<&'a [u8]> { if k == 0 { Some(&self.1) } else { None } }
+    }
+}
+"""
+
+# the same for core::cmp::Ordering (crosses as i8), kept apart: on the unchanged tree `Result<Ordering, E>` is accepted by the tool
+# while the macro's wrapper does not type-check (known finding)
+RESORD = """#[diplomat::bridge]
+pub mod ffi {
+    pub enum RoErr { A, B }
+    #[diplomat::opaque]
+    pub struct RoOp(pub Vec<u8>);
+    impl RoOp {
+        pub fn ord(&self, k: u8) -> Result<core::cmp::Ordering, RoErr> { if k == 0 { Ok(self.0.len().cmp(&1)) } else { Err(RoErr::A) } }
+        pub fn opto(&self, k: u8) -> Option<core::cmp::Ordering> { if k == 0 { Some(core::cmp::Ordering::Equal) } else { None } }
+    }
+}
+"""
+
+SHAPE_GROUPS = {"attrs": ATTRS, "cyc": CYC, "lts": LTS, "multi": MULTI, "ns": NS, "ren": REN, "resarms": RESARMS, "resord": RESORD, "special": SPECIAL, "zst": ZST}
 GATE_OPTIONAL_GROUPS = {"zstdirect": ZST_DIRECT}
 # groups that a backend may refuse (not counted as an accepted module there)
 OPTIONAL_GROUPS = {"dis_%s_%s" % (k, l): _dis_source(k, l) for k in ("st", "en", "op") for l in ("c", "cpp", "js")}
